@@ -133,7 +133,9 @@ def run(ctx: Context) -> None:
         sd = h2.methods["_send_stream_data"]
         split_lossless(ctx, "C03.R5", tree, sd, "data", "frame split")
         wl = [l for l in loops_of(sd) if isinstance(l, ast.While)]
-        oks = bool(wl) and norm(wl[0].test) == "data" and not [x for x in ast.walk(wl[0]) if isinstance(x, (ast.Break, ast.Return, ast.Continue))]
+        # leaving the loop loses what is left of the chunk; a `continue` BEFORE anything was cut off the chunk (wait again for credit) loses nothing
+        cut = min([x.lineno for x in ast.walk(wl[0]) if isinstance(x, ast.Assign) and any(isinstance(t_, ast.Name) and t_.id == "data" for tg_ in x.targets for t_ in ast.walk(tg_))] or [0]) if wl else 0
+        oks = bool(wl) and norm(wl[0].test) == "data" and not [x for x in ast.walk(wl[0]) if isinstance(x, (ast.Break, ast.Return)) or (isinstance(x, ast.Continue) and not (0 < x.lineno < cut))]
         snd = [c for c in own_nodes(sd.node) if isinstance(c, ast.Call) and norm(c.func) == "self._h2_state.send_data"]
         oks = oks and len(snd) == 1 and [norm(a) for a in snd[0].args] == ["stream_id", "chunk"]
         rep.ob("C03.R5", fkey(tree, sd, "split-loop"), oks, where(sd), "the split loop runs until the chunk is consumed and sends every piece on the stream")
